@@ -1,5 +1,7 @@
 HARNESS = "c11"
 LEVEL = "proof"
+STALE_RERUN = True   # every operand is also re-run as a stale external polynomial (see check; harness/c11.c re-creates it per call)
+STALE_LIMIT = 120
 """C12 case generator: feasible sets of polynomial constraints (op fs: 6 sign conditions x 2 polarities, the
 complement sweep, the evaluator) and of root constraints (op rc: root indices 0..deg+1 x 6 x 2, the evaluator) on
 the polynomials / assignments of C11's generator (gen/C11.py).  Every random choice comes from `rng`."""
